@@ -45,6 +45,17 @@ Qed.
 
 Definition in_range (n v : Z) := (0 <=? v) && (v <? n).
 
+(* "Read fills the slice": is there a run of k consecutive positions whose byte is what the buffer held before the call?
+   The harness pre-fills the buffer with its own random bytes, so a position is unchanged by chance with probability
+   1/256 and a run of 7 with probability 2^-56 per position: a threshold far in the tail, like the frequency cases *)
+Fixpoint unchanged_run (k cur : nat) (a b : list Z) : bool :=
+  match a, b with
+  | x :: a', y :: b' =>
+      if x =? y then (if Nat.leb k (S cur) then true else unchanged_run k (S cur) a' b')
+      else unchanged_run k 0 a' b'
+  | _, _ => false
+  end.
+
 (* the property, evaluated on what the implementation returned *)
 Definition prop_ok (c : call) (o : obs) : bool :=
   match c, o with
@@ -67,6 +78,7 @@ Definition prop_ok (c : call) (o : obs) : bool :=
       Nat.eqb (length b') (length buf) && zlist_eqb (firstn off b') (firstn off buf)
       && zlist_eqb (skipn (off + len) b') (skipn (off + len) buf)
       && forallb (fun x => in_range 256 x) b'
+      && negb (unchanged_run 7 0 (firstn len (skipn off b')) (firstn len (skipn off buf)))
   | RFreqMod n m total, OList cnt =>
       Nat.eqb (length cnt) (Z.to_nat m) && (fold_left Z.add cnt 0 =? total)
       && forallb (fun c => (85 * total <=? 100 * c * m) && (100 * c * m <=? 115 * total)) cnt
